@@ -457,8 +457,18 @@ impl Env {
         }
         let mut r = now_or_never(self.blob.reader(id))?;
         let mut out = Vec::new();
-        let mut b = vec![0u8; buf as usize];
+        // buf >= 128: one reader, buffers of changing sizes (a short header read, then
+        // buffers of a chunk and more, then odd sizes); below: one size throughout
+        let sizes: Vec<usize> = if buf >= 128 {
+            let k = usize::from(buf & 7) + 1;
+            vec![k, self.chunk + usize::from((buf >> 3) & 3), 3, 2 * self.chunk + 1, self.chunk, 1]
+        } else {
+            vec![buf as usize]
+        };
+        let mut i = 0;
         loop {
+            let mut b = vec![0u8; sizes[i % sizes.len()]];
+            i += 1;
             let n = now_or_never(r.read(&mut b))?;
             if n == 0 {
                 break;
@@ -1077,7 +1087,7 @@ impl Gen<'_> {
                 12..=13 => self.advance(),
                 14 => Op::Verify { s: self.any_slot() },
                 15 => Op::Repair,
-                16 => Op::Get { s: self.any_slot(), buf: *self.rng.pick(&[0, 1, 3, 64]) },
+                16 => Op::Get { s: self.any_slot(), buf: *self.rng.pick(&[0, 1, 3, 64, 131, 158, 201, 255]) },
                 17..=23 if split => {
                     if !open.is_empty() && self.rng.chance(2, 3) {
                         let i = self.rng.usize_below(open.len());
@@ -1192,7 +1202,7 @@ impl Scenario for C19 {
                         if g.rng.chance(5, 6) {
                             g.write_op()
                         } else {
-                            Op::Get { s: g.any_slot(), buf: *g.rng.pick(&[0, 0, 2]) }
+                            Op::Get { s: g.any_slot(), buf: *g.rng.pick(&[0, 0, 2, 140]) }
                         }
                     },
                     // deleter
